@@ -1043,6 +1043,62 @@ def rule_t1(ctx):
         raise AnalysisBroken("only %d stores to a_expire / a_timeout recognised in aio.c" % n)
 
 
+# ---------------------------------------------------------------------------
+# L2: one lock per park place
+
+
+def rule_l2(ctx):
+    from collections import defaultdict
+    r = ctx.rule("C02.L2", "T7", "one lock per park place: the sites that read or write a field holding a parked caller's aio under a mutex "
+                 "all hold one common mutex -- where the completion path takes the aio under one lock and the cancel function "
+                 "under another, both can complete it (callback runs twice)", floor=15)
+    prog = ctx.prog
+    callers = prog.callers()
+
+    def must_held(f, pos, depth=0):
+        info = lockinfo(f)
+        vs = info.visits.get(pos, [])
+        held = set.intersection(*[set(c for _, c in h) for h in vs]) if vs else set()
+        if not held and depth < 2 and not info.acquires:
+            cs = [(c, s_) for (c, s_) in callers.get(f.name, []) if c.file == f.file and not c.cfg_failed and prog.resolve(c, f.name) is f]
+            if cs:
+                sets = [must_held(c, (s_.b, s_.i), depth + 1) for c, s_ in cs]
+                return set.intersection(*sets) if sets else set()
+        return held
+    acc = defaultdict(list)
+    for f in prog.functions:
+        if f.cfg_failed or f.file.endswith("_test.c") or "testing/" in f.file:
+            continue
+        if f.name.endswith(("_init", "_fini", "_alloc", "_free", "_reap", "_destroy")):
+            continue
+        for s_ in f.sites():
+            nd = s_.node
+            if nd.get("k") == "mem" and (nd.get("t") or "").replace(" ", "") in ("nni_aio*", "nng_aio*", "structnng_aio*"):
+                lf = last_field(nd)
+                if lf:
+                    acc[lf].append((f, s_))
+    n = 0
+    for lf, sites in sorted(acc.items()):
+        held = [(f, s_, frozenset(must_held(f, (s_.b, s_.i)))) for f, s_ in sites]
+        locked = [x for x in held if x[2]]
+        if len(locked) < 2:
+            continue
+        n += 1
+        common = frozenset.intersection(*[h for _, _, h in locked])
+        if common:
+            r.ob(None, "%s: %d locked access sites share %s" % (lf, len(locked), ",".join(sorted(common))))
+        else:
+            # name two sites with disjoint locks
+            a = locked[0]
+            b = next(x for x in locked if not (x[2] & a[2]))
+            ctx.fail(r, b[0], "%s accessed under %s and under %s" % (lf, ",".join(sorted(a[2])), ",".join(sorted(b[2]))), b[1].line,
+                     "%s is read / written at %s:%s holding %s and at %s:%s holding %s, with no mutex in common: a completion "
+                     "on one side and a cancel on the other can both take the same aio and complete it"
+                     % (lf, a[0].name, a[1].line, ",".join(sorted(a[2])), b[0].name, b[1].line, ",".join(sorted(b[2]))))
+    if n < 15:
+        raise AnalysisBroken("only %d parked-aio fields with locked access sites" % n)
+
+
 def run(ctx):   # noqa: F811
     ctx.guard(rule_a1)
     ctx.guard(rule_a2)
@@ -1054,3 +1110,4 @@ def run(ctx):   # noqa: F811
     ctx.guard(rule_e1)
     ctx.guard(rule_s3)
     ctx.guard(rule_t1)
+    ctx.guard(rule_l2)
